@@ -840,6 +840,12 @@ func (c *Conn) handleReturn(ctx context.Context, ret rpccp.Return, releaseRet ca
 		releaseRet()
 		return errorf("incoming return: question %d does not exist", qid)
 	}
+	var paramClients releaseList
+	if ret.ReleaseParamCaps() {
+		// The remote vat has dropped the capabilities passed in the params.
+		paramClients, _ = c.releaseExports(q.paramRefs)
+	}
+	defer paramClients.release() // every return below has released c.mu
 	canceled := q.flags&finished != 0
 	q.flags |= finished
 	if canceled {
